@@ -68,6 +68,7 @@ type Stats struct {
 	Transitions int64
 	States      int64
 	Cuts        int64
+	Skipped     int64 // alternatives dropped by look-ahead (their successor state was already visited)
 	MaxDepth    int
 	Outcomes    map[string]int64
 	Exhaustive  bool
@@ -181,6 +182,16 @@ loop:
 			}
 			pr.faultAlt[i] = a.fault
 		}
+		if useCache {
+			pr.keys = make([]uint64, len(tr))
+			for i, a := range tr {
+				k := x.predictKey(a)
+				if e.Cfg.PreemptBound >= 0 {
+					k = mix(k, uint64(x.preempt+pr.cost[i]), uint64(a.t.id))
+				}
+				pr.keys[i] = k
+			}
+		}
 		idx := len(x.choices)
 		c := 0
 		if idx < len(prefix) {
@@ -201,6 +212,12 @@ loop:
 			k := x.stateKey()
 			if e.Cfg.PreemptBound >= 0 {
 				k = mix(k, uint64(x.preempt), uint64(x.last.id))
+			}
+			if k != pr.keys[c] {
+				x.mu.Unlock()
+				res.Outcome = "divergence"
+				err = fmt.Errorf("PREDICTION: predicted state key of the chosen transition differs from the key after applying it (look-ahead pruning would be unsound)")
+				break
 			}
 			if _, seen := e.visited[k]; seen {
 				cut = true
@@ -313,6 +330,7 @@ func (e *Explorer) Explore(mk func() Run) *Stats {
 	}
 	start := time.Now()
 	stack := [][]int{{}}
+	skeys := []uint64{0}
 	seenClass := map[string]bool{}
 	for len(stack) > 0 {
 		if e.Cfg.Budget > 0 && time.Since(start) > e.Cfg.Budget {
@@ -326,7 +344,15 @@ func (e *Explorer) Explore(mk func() Run) *Stats {
 			break
 		}
 		prefix := stack[len(stack)-1]
+		pkey := skeys[len(skeys)-1]
 		stack = stack[:len(stack)-1]
+		skeys = skeys[:len(skeys)-1]
+		if pkey != 0 {
+			if _, seen := e.visited[pkey]; seen {
+				st.Skipped++ // became visited while it was waiting on the stack
+				continue
+			}
+		}
 		res, points, run, err := e.runOne(mk, prefix, !e.Cfg.NoCache)
 		st.Executions++
 		st.Transitions += int64(len(res.Trace))
@@ -400,10 +426,21 @@ func (e *Explorer) Explore(mk func() Run) *Stats {
 				if e.Cfg.PreemptBound >= 0 && p.preBefore+p.cost[alt] > e.Cfg.PreemptBound {
 					continue
 				}
+				if p.keys != nil {
+					if _, seen := e.visited[p.keys[alt]]; seen {
+						st.Skipped++ // leads to a visited state: what an execution would find out only after replaying the prefix
+						continue
+					}
+				}
 				np := make([]int, i+1)
 				copy(np, res.Choices[:i])
 				np[i] = alt
 				stack = append(stack, np)
+				if p.keys != nil {
+					skeys = append(skeys, p.keys[alt])
+				} else {
+					skeys = append(skeys, 0)
+				}
 			}
 		}
 	}
@@ -444,6 +481,6 @@ func (s *Stats) OutcomeList() []string {
 }
 
 func (s *Stats) String() string {
-	return fmt.Sprintf("executions=%d transitions=%d states=%d cuts=%d maxdepth=%d exhaustive=%v bound=%s outcomes=[%s]",
-		s.Executions, s.Transitions, s.States, s.Cuts, s.MaxDepth, s.Exhaustive, s.BoundUsed, strings.Join(s.OutcomeList(), "; "))
+	return fmt.Sprintf("executions=%d transitions=%d states=%d cuts=%d skipped=%d maxdepth=%d exhaustive=%v bound=%s outcomes=[%s]",
+		s.Executions, s.Transitions, s.States, s.Cuts, s.Skipped, s.MaxDepth, s.Exhaustive, s.BoundUsed, strings.Join(s.OutcomeList(), "; "))
 }
